@@ -7,15 +7,16 @@ BASE = "/root/.vp/BASELINE.json"
 HERE = os.path.dirname(os.path.abspath(__file__))
 
 def main():
+    repo = sys.argv[1] if len(sys.argv) > 1 else "/repo"
     env = dict(os.environ)
     env["CARGO_NET_OFFLINE"] = "true"
     env.pop("RUSTFLAGS", None)
-    junit = "/repo/target/nextest/pb/junit.xml"
+    junit = repo + "/target/nextest/pb/junit.xml"
     if os.path.exists(junit):
         os.remove(junit)
     cmd = ["cargo", "nextest", "run", "--workspace", "--no-fail-fast", "--tool-config-file", "pb:%s/nextest.toml" % HERE,
            "--profile", "pb", "--test-threads", "8", "--offline"]
-    r = subprocess.run(cmd, cwd="/repo", env=env, stdout=subprocess.PIPE, stderr=subprocess.STDOUT, text=True)
+    r = subprocess.run(cmd, cwd=repo, env=env, stdout=subprocess.PIPE, stderr=subprocess.STDOUT, text=True)
     if not os.path.exists(junit):
         sys.stdout.write(r.stdout[-4000:])
         print("baseline: no junit produced")
